@@ -2,6 +2,8 @@ mod c03;
 mod c04;
 mod c05;
 mod c08;
+mod c11;
+mod c11gen;
 mod c12;
 mod sexp;
 mod slots;
@@ -28,6 +30,7 @@ fn main() {
         "c04" => c04::run(&tier, seed),
         "c05" => c05::run(&tier, seed),
         "c08" => c08::run(&tier, seed),
+        "c11" => c11gen::run(&tier, seed),
         "c12" => c12::run(&tier, seed),
         "pipe" => pipe::run(&tier, seed),
         "slots" => slots::run(&tier, seed),
